@@ -108,7 +108,7 @@ class World:
             seen.append(c)
             a = rng.randn(*[self.sizes[self.attrs.index(x)] for x in c])
             if vclass == 'x400':
-                a = a * 400.0   # slices differ by far more than 745 nats; the answers must stay exact
+                a = a * 40.0    # moderately large; offsets of +-1500 that cancel across a separator are added below
             if vclass == 'neginf':
                 a.reshape(-1)[(len(seen) * 3) % a.size] = -np.inf
             self.in_pots.append((c, a))
@@ -117,6 +117,9 @@ class World:
             for a_ in self.attrs:
                 self.in_pots.append(((a_,), rng.randn(self.sizes[self.attrs.index(a_)])))
         self.joint = O.explicit_joint(self.attrs, self.sizes, self.in_pots, total)
+        if vclass == 'x400':
+            # same distribution, but with offsets of +-1500 that cancel between two potentials sharing an attribute
+            self.in_pots = S.compensate(self.attrs, self.sizes, self.in_pots)
         self.tmp = None
 
     def fresh(self):
